@@ -456,4 +456,23 @@ theorem range_proof_extract (I : RangeInst F M) (hn : 0 < I.n) (κ : ℕ) (hN : 
   rw [hs] at h
   linear_combination -h
 
+/-- **Weights that are successive powers of one draw** (a rewrite some verifiers use; H21): if the weighted sum of the
+    members' residuals vanishes for more than `k` non-zero values of the draw, every residual is zero. So such weights
+    admit no fixed cancelling vector, and a batch with an invalid member passes for at most `k` values of the draw. -/
+theorem power_weights_sound (k : ℕ) (R : ℕ → M) (S : Finset F) (hS : k < S.card) (h0 : ∀ ρ ∈ S, ρ ≠ 0)
+    (h : ∀ ρ ∈ S, ∑ i ∈ range k, ρ ^ (i + 1) • R i = 0) : ∀ i < k, R i = 0 := by
+  cases k with
+  | zero => intro i hi; omega
+  | succ d =>
+    have hm := module_poly_mem (⊥ : Submodule F M) R d S (by omega) (by
+      intro z hz
+      rw [Submodule.mem_bot]
+      have := h z hz
+      have e : ∑ i ∈ range (d + 1), z ^ (i + 1) • R i = z • ∑ i ∈ range (d + 1), z ^ i • R i := by
+        rw [Finset.smul_sum]; apply Finset.sum_congr rfl; intro i _; rw [smul_smul, pow_succ, mul_comm]
+      rw [e] at this
+      exact (smul_eq_zero.mp this).resolve_left (h0 z hz))
+    intro i hi
+    exact (Submodule.mem_bot F).mp (hm i (by omega))
+
 end Bpp
